@@ -1786,6 +1786,7 @@ def sec_varatio(ck):
     except Exception as e:  # noqa
         return
     rng = ck.rng("varatio")
+    terms, metas = [], []
 
     def posr(x):
         return 1 / x if x > 0 else Fraction(0)
@@ -1797,8 +1798,22 @@ def sec_varatio(ck):
         Y[0] += 0.5
         sd = 2.0 ** rng.integers(-1, 2, size=(n, p)).astype(float)
         df = None if it % 2 else rng.integers(1, 6, size=n).astype(float)
+        if it % 3 == 2:
+            sd = sd * rng.choice([-1.0, 1.0], size=sd.shape)      # pos_recipr(sd**2): the sign of sd is immaterial
         out = OSM.estimate_varatio(Y.copy(), sd.copy(), df=None if df is None else df.copy(), niter=niter)
         ck.count(("varatio", it), bucket="estimate_varatio")
+        # the variance estimates are even in the data and invariant under a common shift (theorems varatio_random_even,
+        # varatio_random_shift_invariant), evaluated on the implementation
+        cshift = float(rng.integers(-12, 13)) / 4
+        for tag, Y2 in (("not-even", -Y), ("not-shift-invariant", Y + cshift)):
+            out2 = OSM.estimate_varatio(Y2.copy(), sd.copy(), df=None if df is None else df.copy(), niter=niter)
+            ck.count(("varatio", it, tag), bucket="estimate_varatio:" + tag[4:])
+            for key in ("random", "ratio", "fixed"):
+                if not close(np.asarray(out2[key], dtype=float).reshape(-1), np.asarray(out[key], dtype=float).reshape(-1), 1e-9):
+                    ck.fail("estimate_varatio/%s" % tag, "estimate_varatio(niter=%d)[%r] changes when the data are %s: %r vs %r"
+                            % (niter, key, "negated" if tag == "not-even" else "shifted by %r" % cshift, np.asarray(out2[key]).tolist(),
+                               np.asarray(out[key]).tolist()),
+                            {"Y": Y.tolist(), "sd": sd.tolist(), "df": None if df is None else df.tolist(), "niter": niter, "shift": cshift})
         for j in range(p):
             y = [frac(v) for v in Y[:, j]]
             S = [1 / posr(frac(s) ** 2) for s in sd[:, j]]
@@ -1826,7 +1841,20 @@ def sec_varatio(ck):
                         "estimate_varatio(niter=%d) gives fixed=%r random=%r ratio=%r; the defining recursion gives %r %r %r"
                         % (niter, g_fixed, g_rand, g_ratio, float(fixed), float(sigma2), float(sigma2 / fixed)),
                         {"Y": Y[:, j].tolist(), "sd": sd[:, j].tolist(), "df": None if df is None else df.tolist(), "niter": niter})
-    ck.section("estimate_varatio", note="re-computed with exact rationals (float(0.99) as in the source), tolerance 1e-10")
+            if n <= 6 and j == 0:
+                # Coq model (coq/C17/ModelVar.v) on the same input; Sreduction = the exact value of the double 0.99
+                args = (cq(0.99), cnat(niter), cql(Y[:, j].tolist()), cql(sd[:, j].tolist()))
+                cdf = cql([1.0] * n if df is None else df.tolist())
+                terms.append("(qclose (vr_random %s %s %s %s) %s && qclose (vr_fixed %s %s) %s && qclose (vr_ratio %s %s %s %s %s) %s)%%bool"
+                             % (args + (cq(g_rand), cdf, args[3], cq(g_fixed), args[0], args[1], cdf, args[2], args[3], cq(g_ratio))))
+                metas.append(("estimate_varatio", niter, Y[:, j].tolist(), sd[:, j].tolist(), None if df is None else df.tolist()))
+    run_terms(ck, "estimate_varatio", terms, metas,
+              lambda t: "(Qred (vr_random %s %s %s %s), Qred (vr_fixed %s %s))"
+              % (cq(0.99), cnat(t[1]), cql(t[2]), cql(t[3]), cql([1.0] * len(t[2]) if t[4] is None else t[4]), cql(t[3])),
+              hdr=HDR_MFX + "From NV.C17 Require Import ModelVar.\n", shard=60)
+    ck.section("estimate_varatio", model_cases=len(terms),
+               note="re-computed with exact rationals (float(0.99) as in the source), tolerance 1e-10; the Coq model vr_random / vr_fixed / vr_ratio "
+                    "evaluated on the same inputs (n <= 6, sd of either sign, no zeros); evenness and shift invariance evaluated on the implementation")
 
 
 
